@@ -21,7 +21,7 @@ for fn in sys.argv[1:]:
 for src, d in sorted(res.items()):
     folder, n = src.split("/")[-2], src.split("/")[-1]
     prop = folder.split("_")[0]
-    n = ("r2-" if folder.endswith("_out2") else "r1-") + n
+    n = ("r3-" if folder.endswith("_out3") else "r2-" if folder.endswith("_out2") else "r1-") + n
     dst = os.path.join(VERIF, "seeded", f"{prop}-{n}")
     ok = d.get("tests_passed") == 263 and not d.get("tests_failed") and d.get("demo_clean_exit") == 0 and d.get("demo_patched_exit") == 1
     if not ok:
